@@ -95,6 +95,10 @@ theorem C13_later_rules_irrelevant (pre post post' : List Rule) (r : Rule) (name
     · simp only [Bool.not_eq_true] at h
       simpa [firstMatch, h] using ih
 
+/-- No rule of the extracted table is dead: on its own prefix every rule is the one that decides (a rule placed
+behind a broader rule with the opposite action would be shadowed). -/
+theorem C13_rules_effective : ∀ r ∈ conversionRules, ruleAction r.pfx = some r.kind := by decide
+
 /-! The extracted table: the `Convert` rule for `tensorflow.python.training.experimental` shadows the later
 `DoNotConvert('tensorflow')`; dotted children match, mere string extensions do not. -/
 example : ruleAction ["tensorflow", "python", "training", "experimental", "loss_scale"] = some .convert := by decide
@@ -287,6 +291,21 @@ theorem C13_callsite_wins {α} (k0 : Kw α) (kw : Option (Kw α)) (k : String) :
   rw [mergeKw_eq]
   exact dictGet_dictUpdate k0 (kw.getD []) k
 
+/-- Keyword binding of the direct call in closed form (real dicts: distinct keys): the call site wins, then the
+outermost partial, then the inner ones. -/
+theorem C13_keyword_binding {α} (c : Callable α) (args : List α) (kw : Kw α) (k : String)
+    (hc : c.kwDistinct) (hk : (keys kw).Nodup) :
+    dictGet k (direct c args kw).kw = match dictGet k kw with
+                                       | some v => some v
+                                       | none => storedKw k c := by
+  induction c generalizing args kw with
+  | base d self binds =>
+    simp only [direct, storedKw]
+    cases dictGet k kw <;> rfl
+  | part d a0 k0 inner ih =>
+    simp only [direct, storedKw]
+    rw [ih _ _ hc.2 (nodup_dictUpdate k0 kw hc.1), dictGet_dictUpdate, lastIn_eq_dictGet kw k hk]
+    cases dictGet k kw <;> rfl
 /-- `kwargs=None` and `kwargs={}` are indistinguishable (effect and remembered state). -/
 theorem C13_kwargs_none_is_empty {α} (env : Env) (o : Opts) (c : Callable α) (args : List α) :
     call env o c args none = call env o c args (some []) := by
@@ -331,6 +350,53 @@ theorem C13_policy (d : Desc) (env : Env) (o : Opts) :
     · simp_all [actionOf, fires, Excluded, allowlistSkippedWhenUserRequested]
   all_goals simp_all [fires]
 
+private theorem actionOf_convert_iff (s : Step) : actionOf s = .convert ↔ s.check = .convert := by
+  obtain ⟨c, u⟩ := s
+  cases c <;> simp [actionOf]
+
+/-- For ANY chain of checks (any order, any length): the decision is to convert exactly when a conversion step is
+reached with every step placed before it negative — the exclusions are an unordered set. -/
+theorem C13_chain_convert_iff (steps : List Step) (p : Bool) (d : Desc) (env : Env) (o : Opts) :
+    decideIn steps p d env o = .convert ↔
+      ∃ pre s post, steps = pre ++ s :: post ∧ s.check = .convert ∧
+        ∀ x ∈ pre, fires p d env o x.check = false := by
+  induction steps with
+  | nil => simp [decideIn_nil]
+  | cons a as ih =>
+    rw [decideIn_cons]
+    by_cases h : fires p d env o a.check = true
+    · simp only [h, if_true, actionOf_convert_iff]
+      constructor
+      · intro hc
+        exact ⟨[], a, as, rfl, hc, by simp⟩
+      · rintro ⟨pre, s, post, heq, hs, hpre⟩
+        cases pre with
+        | nil => simp at heq; rw [heq.1]; exact hs
+        | cons x pre' =>
+          simp at heq
+          have := hpre x (by simp)
+          rw [← heq.1, h] at this
+          cases this
+    · have hf : fires p d env o a.check = false := by simpa using h
+      rw [if_neg h, ih]
+      clear h
+      have h := hf
+      constructor
+      · rintro ⟨pre, s, post, heq, hs, hpre⟩
+        refine ⟨a :: pre, s, post, by simp [heq], hs, ?_⟩
+        intro x hx
+        cases hx with
+        | head => exact h
+        | tail _ hx' => exact hpre x hx'
+      · rintro ⟨pre, s, post, heq, hs, hpre⟩
+        cases pre with
+        | nil =>
+          simp at heq
+          rw [← heq.1] at hs
+          simp [hs, fires] at h
+        | cons x pre' =>
+          simp at heq
+          exact ⟨pre', s, post, heq.2, hs, fun y hy => hpre y (by simp [hy])⟩
 /-- Each documented exclusion on its own prevents the conversion. -/
 theorem C13_excluded_not_converted (d : Desc) (env : Env) (o : Opts) (h : Excluded d env o) :
     decide false d env o ≠ .convert :=
